@@ -319,7 +319,7 @@ fn main() {
                     std::process::exit(2);
                 }
             };
-            let rep = e7::child_run(&case);
+            let rep = cadence_dsim::kernel::in_clean_room(|| e7::child_run(&case));
             println!("CHILD-REPORT {}", serde_json::to_string(&rep).unwrap());
             0
         }
@@ -339,7 +339,7 @@ fn main() {
                 ("macroproc/C17", selftest::<e7::E7>("C17", seeds.min(200), 16, DEFAULT_SEED)),
             ] {
                 match r {
-                    Ok(n) => println!("selftest {name}: {n} seeds x 2 executions identical"),
+                    Ok(n) => println!("selftest {name}: {n} seeds x 3 executions identical (2 worker counts on pooled threads + clean room)"),
                     Err(e) => {
                         println!("selftest {name}: NONDETERMINISM {e}");
                         bad += 1;
